@@ -277,6 +277,9 @@ func headerSx(h http.Header, keep func(string) bool) Sx {
 }
 
 func silence() {
+	if os.Getenv("VERIF_LOG") != "" {
+		return
+	}
 	restful.SetLogger(log.New(ioutil.Discard, "", 0))
 	log.SetOutput(ioutil.Discard)
 }
